@@ -58,7 +58,7 @@ def run(res, ctx):
     rng = random.Random(seed * 141650939 + 6)
     st = collections.Counter()
     seen, samples = set(), []
-    n = 250 if tier == "quick" else 3000
+    n = 250 if tier == "quick" else 12000
     cases = []
     for _ in range(n):
         c = gen.gen_case(rng, p_invalid=0.1)
